@@ -73,6 +73,16 @@ def pcOK (c : Cfg) (t : Nat) : Pc → Prop
   | Pc.rResolve => kindOf c t = Kind.res ∧ t < c.n
   | Pc.rRun _ => kindOf c t = Kind.res ∧ t < c.n
 
+/-- program counters of a thread that already holds its handle after the construction -/
+def postCtor : Pc → Bool
+  | Pc.hRun _ => true
+  | Pc.hCas _ _ _ => true
+  | Pc.hWait _ => true
+  | Pc.hBlocked _ => true
+  | Pc.hRead _ _ => true
+  | Pc.hRead2 _ _ _ => true
+  | _ => false
+
 /-- before the resolver's exchange -/
 def preResolve : Pc → Bool
   | Pc.rStart => true
@@ -138,6 +148,7 @@ structure Inv (c : Cfg) (s : State) : Prop where
   flagIff : ∀ x, s.flag x = true ↔ (s.akind x = WK.sync ∧ 1 ≤ s.woken x)
   wokenReady : ∀ x, 1 ≤ s.woken x → s.slot = Slot.ready
   resHeld : ∀ t, kindOf c t = Kind.res → s.held t = 0
+  aProg : ∀ t, postCtor (s.pc t) = true → s.constructed = true
 
 macro "inv_facts" h:ident : tactic => `(tactic| (
   have := ($h).pcok
@@ -176,47 +187,49 @@ macro "inv_facts" h:ident : tactic => `(tactic| (
   have := ($h).storeKind
   have := ($h).flagIff
   have := ($h).wokenReady
-  have := ($h).resHeld))
+  have := ($h).resHeld
+  have := ($h).aProg))
 
 macro "inv_auto" h:ident : tactic => `(tactic| (
   constructor
-  case pcok => first | exact ($h).pcok | (have := ($h).pcok; grind [upd, pcOK, preClaim, preResolve, isCtor, inflight]) | (inv_facts $h; grind [upd, pcOK, preClaim, preResolve, isCtor, inflight]) | fail "clause pcok"
-  case aCas => first | exact ($h).aCas | (have := ($h).aCas; grind [upd, pcOK, preClaim, preResolve, isCtor, inflight]) | (inv_facts $h; grind [upd, pcOK, preClaim, preResolve, isCtor, inflight]) | fail "clause aCas"
-  case aRead => first | exact ($h).aRead | (have := ($h).aRead; grind [upd, pcOK, preClaim, preResolve, isCtor, inflight]) | (inv_facts $h; grind [upd, pcOK, preClaim, preResolve, isCtor, inflight]) | fail "clause aRead"
-  case aRead2 => first | exact ($h).aRead2 | (have := ($h).aRead2; grind [upd, pcOK, preClaim, preResolve, isCtor, inflight]) | (inv_facts $h; grind [upd, pcOK, preClaim, preResolve, isCtor, inflight]) | fail "clause aRead2"
-  case aWait => first | exact ($h).aWait | (have := ($h).aWait; grind [upd, pcOK, preClaim, preResolve, isCtor, inflight]) | (inv_facts $h; grind [upd, pcOK, preClaim, preResolve, isCtor, inflight]) | fail "clause aWait"
-  case aCtor => first | exact ($h).aCtor | (have := ($h).aCtor; grind [upd, pcOK, preClaim, preResolve, isCtor, inflight]) | (inv_facts $h; grind [upd, pcOK, preClaim, preResolve, isCtor, inflight]) | fail "clause aCtor"
-  case aGate => first | exact ($h).aGate | (have := ($h).aGate; grind [upd, pcOK, preClaim, preResolve, isCtor, inflight]) | (inv_facts $h; grind [upd, pcOK, preClaim, preResolve, isCtor, inflight]) | fail "clause aGate"
-  case aDone => first | exact ($h).aDone | (have := ($h).aDone; grind [upd, pcOK, preClaim, preResolve, isCtor, inflight]) | (inv_facts $h; grind [upd, pcOK, preClaim, preResolve, isCtor, inflight]) | fail "clause aDone"
-  case aRun => first | exact ($h).aRun | (have := ($h).aRun; grind [upd, pcOK, preClaim, preResolve, isCtor, inflight]) | (inv_facts $h; grind [upd, pcOK, preClaim, preResolve, isCtor, inflight]) | fail "clause aRun"
-  case aResolve => first | exact ($h).aResolve | (have := ($h).aResolve; grind [upd, pcOK, preClaim, preResolve, isCtor, inflight]) | (inv_facts $h; grind [upd, pcOK, preClaim, preResolve, isCtor, inflight]) | fail "clause aResolve"
-  case ctor0 => first | exact ($h).ctor0 | (have := ($h).ctor0; grind [upd, pcOK, preClaim, preResolve, isCtor, inflight]) | (inv_facts $h; grind [upd, pcOK, preClaim, preResolve, isCtor, inflight]) | fail "clause ctor0"
-  case pub => first | exact ($h).pub | (have := ($h).pub; grind [upd, pcOK, preClaim, preResolve, isCtor, inflight]) | (inv_facts $h; grind [upd, pcOK, preClaim, preResolve, isCtor, inflight]) | fail "clause pub"
-  case nopromise => first | exact ($h).nopromise | (have := ($h).nopromise; grind [upd, pcOK, preClaim, preResolve, isCtor, inflight]) | (inv_facts $h; grind [upd, pcOK, preClaim, preResolve, isCtor, inflight]) | fail "clause nopromise"
-  case pending => first | exact ($h).pending | (have := ($h).pending; grind [upd, pcOK, preClaim, preResolve, isCtor, inflight]) | (inv_facts $h; grind [upd, pcOK, preClaim, preResolve, isCtor, inflight]) | fail "clause pending"
-  case resolved => first | exact ($h).resolved | (have := ($h).resolved; grind [upd, pcOK, preClaim, preResolve, isCtor, inflight]) | (inv_facts $h; grind [upd, pcOK, preClaim, preResolve, isCtor, inflight]) | fail "clause resolved"
-  case pay => first | exact ($h).pay | (have := ($h).pay; grind [upd, pcOK, preClaim, preResolve, isCtor, inflight]) | (inv_facts $h; grind [upd, pcOK, preClaim, preResolve, isCtor, inflight]) | fail "clause pay"
-  case obsAfterReady => first | exact ($h).obsAfterReady | (have := ($h).obsAfterReady; grind [upd, pcOK, preClaim, preResolve, isCtor, inflight]) | (inv_facts $h; grind [upd, pcOK, preClaim, preResolve, isCtor, inflight]) | fail "clause obsAfterReady"
-  case alive => first | exact ($h).alive | (have := ($h).alive; grind [upd, pcOK, preClaim, preResolve, isCtor, inflight]) | (inv_facts $h; grind [upd, pcOK, preClaim, preResolve, isCtor, inflight]) | fail "clause alive"
-  case refsLen => first | exact ($h).refsLen | (have := ($h).refsLen; grind [upd, pcOK, preClaim, preResolve, isCtor, inflight]) | (inv_facts $h; grind [upd, pcOK, preClaim, preResolve, isCtor, inflight]) | fail "clause refsLen"
-  case hThread => first | exact ($h).hThread | (have := ($h).hThread; grind [upd, pcOK, preClaim, preResolve, isCtor, inflight]) | (inv_facts $h; grind [upd, pcOK, preClaim, preResolve, isCtor, inflight]) | fail "clause hThread"
-  case hCtx => first | exact ($h).hCtx | (have := ($h).hCtx; grind [upd, pcOK, preClaim, preResolve, isCtor, inflight]) | (inv_facts $h; grind [upd, pcOK, preClaim, preResolve, isCtor, inflight]) | fail "clause hCtx"
-  case hTracer => first | exact ($h).hTracer | (have := ($h).hTracer; grind [upd, pcOK, preClaim, preResolve, isCtor, inflight]) | (inv_facts $h; grind [upd, pcOK, preClaim, preResolve, isCtor, inflight]) | fail "clause hTracer"
-  case freedIff => first | exact ($h).freedIff | (have := ($h).freedIff; grind [upd, pcOK, preClaim, preResolve, isCtor, inflight]) | (inv_facts $h; grind [upd, pcOK, preClaim, preResolve, isCtor, inflight]) | fail "clause freedIff"
-  case noUaf => first | exact ($h).noUaf | (have := ($h).noUaf; grind [upd, pcOK, preClaim, preResolve, isCtor, inflight]) | (inv_facts $h; grind [upd, pcOK, preClaim, preResolve, isCtor, inflight]) | fail "clause noUaf"
-  case noCrash => first | exact ($h).noCrash | (have := ($h).noCrash; grind [upd, pcOK, preClaim, preResolve, isCtor, inflight]) | (inv_facts $h; grind [upd, pcOK, preClaim, preResolve, isCtor, inflight]) | fail "clause noCrash"
-  case tracerCnt => first | exact ($h).tracerCnt | (have := ($h).tracerCnt; grind [upd, pcOK, preClaim, preResolve, isCtor, inflight]) | (inv_facts $h; grind [upd, pcOK, preClaim, preResolve, isCtor, inflight]) | fail "clause tracerCnt"
-  case tracerLast => first | exact ($h).tracerLast | (have := ($h).tracerLast; grind [upd, pcOK, preClaim, preResolve, isCtor, inflight]) | (inv_facts $h; grind [upd, pcOK, preClaim, preResolve, isCtor, inflight]) | fail "clause tracerLast"
-  case wake => first | exact ($h).wake | (have := ($h).wake; grind [upd, pcOK, preClaim, preResolve, isCtor, inflight]) | (inv_facts $h; grind [upd, pcOK, preClaim, preResolve, isCtor, inflight]) | fail "clause wake"
-  case obsv => first | exact ($h).obsv | (have := ($h).obsv; grind [upd, pcOK, preClaim, preResolve, isCtor, inflight]) | (inv_facts $h; grind [upd, pcOK, preClaim, preResolve, isCtor, inflight]) | fail "clause obsv"
-  case subAw => first | exact ($h).subAw | (have := ($h).subAw; grind [upd, pcOK, preClaim, preResolve, isCtor, inflight]) | (inv_facts $h; grind [upd, pcOK, preClaim, preResolve, isCtor, inflight]) | fail "clause subAw"
-  case awKind => first | exact ($h).awKind | (have := ($h).awKind; grind [upd, pcOK, preClaim, preResolve, isCtor, inflight]) | (inv_facts $h; grind [upd, pcOK, preClaim, preResolve, isCtor, inflight]) | fail "clause awKind"
-  case ctxIff => first | exact ($h).ctxIff | (have := ($h).ctxIff; grind [upd, pcOK, preClaim, preResolve, isCtor, inflight]) | (inv_facts $h; grind [upd, pcOK, preClaim, preResolve, isCtor, inflight]) | fail "clause ctxIff"
-  case wakeKind => first | exact ($h).wakeKind | (have := ($h).wakeKind; grind [upd, pcOK, preClaim, preResolve, isCtor, inflight]) | (inv_facts $h; grind [upd, pcOK, preClaim, preResolve, isCtor, inflight]) | fail "clause wakeKind"
-  case storeKind => first | exact ($h).storeKind | (have := ($h).storeKind; grind [upd, pcOK, preClaim, preResolve, isCtor, inflight]) | (inv_facts $h; grind [upd, pcOK, preClaim, preResolve, isCtor, inflight]) | fail "clause storeKind"
-  case flagIff => first | exact ($h).flagIff | (have := ($h).flagIff; grind [upd, pcOK, preClaim, preResolve, isCtor, inflight]) | (inv_facts $h; grind [upd, pcOK, preClaim, preResolve, isCtor, inflight]) | fail "clause flagIff"
-  case wokenReady => first | exact ($h).wokenReady | (have := ($h).wokenReady; grind [upd, pcOK, preClaim, preResolve, isCtor, inflight]) | (inv_facts $h; grind [upd, pcOK, preClaim, preResolve, isCtor, inflight]) | fail "clause wokenReady"
-  case resHeld => first | exact ($h).resHeld | (have := ($h).resHeld; grind [upd, pcOK, preClaim, preResolve, isCtor, inflight]) | (inv_facts $h; grind [upd, pcOK, preClaim, preResolve, isCtor, inflight]) | fail "clause resHeld"))
+  case pcok => first | exact ($h).pcok | (have := ($h).pcok; grind [upd, pcOK, preClaim, preResolve, isCtor, inflight, ownsCtx, postCtor]) | (inv_facts $h; grind [upd, pcOK, preClaim, preResolve, isCtor, inflight, ownsCtx, postCtor]) | fail "clause pcok"
+  case aCas => first | exact ($h).aCas | (have := ($h).aCas; grind [upd, pcOK, preClaim, preResolve, isCtor, inflight, ownsCtx, postCtor]) | (inv_facts $h; grind [upd, pcOK, preClaim, preResolve, isCtor, inflight, ownsCtx, postCtor]) | fail "clause aCas"
+  case aRead => first | exact ($h).aRead | (have := ($h).aRead; grind [upd, pcOK, preClaim, preResolve, isCtor, inflight, ownsCtx, postCtor]) | (inv_facts $h; grind [upd, pcOK, preClaim, preResolve, isCtor, inflight, ownsCtx, postCtor]) | fail "clause aRead"
+  case aRead2 => first | exact ($h).aRead2 | (have := ($h).aRead2; grind [upd, pcOK, preClaim, preResolve, isCtor, inflight, ownsCtx, postCtor]) | (inv_facts $h; grind [upd, pcOK, preClaim, preResolve, isCtor, inflight, ownsCtx, postCtor]) | fail "clause aRead2"
+  case aWait => first | exact ($h).aWait | (have := ($h).aWait; grind [upd, pcOK, preClaim, preResolve, isCtor, inflight, ownsCtx, postCtor]) | (inv_facts $h; grind [upd, pcOK, preClaim, preResolve, isCtor, inflight, ownsCtx, postCtor]) | fail "clause aWait"
+  case aCtor => first | exact ($h).aCtor | (have := ($h).aCtor; grind [upd, pcOK, preClaim, preResolve, isCtor, inflight, ownsCtx, postCtor]) | (inv_facts $h; grind [upd, pcOK, preClaim, preResolve, isCtor, inflight, ownsCtx, postCtor]) | fail "clause aCtor"
+  case aGate => first | exact ($h).aGate | (have := ($h).aGate; grind [upd, pcOK, preClaim, preResolve, isCtor, inflight, ownsCtx, postCtor]) | (inv_facts $h; grind [upd, pcOK, preClaim, preResolve, isCtor, inflight, ownsCtx, postCtor]) | fail "clause aGate"
+  case aDone => first | exact ($h).aDone | (have := ($h).aDone; grind [upd, pcOK, preClaim, preResolve, isCtor, inflight, ownsCtx, postCtor]) | (inv_facts $h; grind [upd, pcOK, preClaim, preResolve, isCtor, inflight, ownsCtx, postCtor]) | fail "clause aDone"
+  case aRun => first | exact ($h).aRun | (have := ($h).aRun; grind [upd, pcOK, preClaim, preResolve, isCtor, inflight, ownsCtx, postCtor]) | (inv_facts $h; grind [upd, pcOK, preClaim, preResolve, isCtor, inflight, ownsCtx, postCtor]) | fail "clause aRun"
+  case aResolve => first | exact ($h).aResolve | (have := ($h).aResolve; grind [upd, pcOK, preClaim, preResolve, isCtor, inflight, ownsCtx, postCtor]) | (inv_facts $h; grind [upd, pcOK, preClaim, preResolve, isCtor, inflight, ownsCtx, postCtor]) | fail "clause aResolve"
+  case ctor0 => first | exact ($h).ctor0 | (have := ($h).ctor0; grind [upd, pcOK, preClaim, preResolve, isCtor, inflight, ownsCtx, postCtor]) | (inv_facts $h; grind [upd, pcOK, preClaim, preResolve, isCtor, inflight, ownsCtx, postCtor]) | fail "clause ctor0"
+  case pub => first | exact ($h).pub | (have := ($h).pub; grind [upd, pcOK, preClaim, preResolve, isCtor, inflight, ownsCtx, postCtor]) | (inv_facts $h; grind [upd, pcOK, preClaim, preResolve, isCtor, inflight, ownsCtx, postCtor]) | fail "clause pub"
+  case nopromise => first | exact ($h).nopromise | (have := ($h).nopromise; grind [upd, pcOK, preClaim, preResolve, isCtor, inflight, ownsCtx, postCtor]) | (inv_facts $h; grind [upd, pcOK, preClaim, preResolve, isCtor, inflight, ownsCtx, postCtor]) | fail "clause nopromise"
+  case pending => first | exact ($h).pending | (have := ($h).pending; grind [upd, pcOK, preClaim, preResolve, isCtor, inflight, ownsCtx, postCtor]) | (inv_facts $h; grind [upd, pcOK, preClaim, preResolve, isCtor, inflight, ownsCtx, postCtor]) | fail "clause pending"
+  case resolved => first | exact ($h).resolved | (have := ($h).resolved; grind [upd, pcOK, preClaim, preResolve, isCtor, inflight, ownsCtx, postCtor]) | (inv_facts $h; grind [upd, pcOK, preClaim, preResolve, isCtor, inflight, ownsCtx, postCtor]) | fail "clause resolved"
+  case pay => first | exact ($h).pay | (have := ($h).pay; grind [upd, pcOK, preClaim, preResolve, isCtor, inflight, ownsCtx, postCtor]) | (inv_facts $h; grind [upd, pcOK, preClaim, preResolve, isCtor, inflight, ownsCtx, postCtor]) | fail "clause pay"
+  case obsAfterReady => first | exact ($h).obsAfterReady | (have := ($h).obsAfterReady; grind [upd, pcOK, preClaim, preResolve, isCtor, inflight, ownsCtx, postCtor]) | (inv_facts $h; grind [upd, pcOK, preClaim, preResolve, isCtor, inflight, ownsCtx, postCtor]) | fail "clause obsAfterReady"
+  case alive => first | exact ($h).alive | (have := ($h).alive; grind [upd, pcOK, preClaim, preResolve, isCtor, inflight, ownsCtx, postCtor]) | (inv_facts $h; grind [upd, pcOK, preClaim, preResolve, isCtor, inflight, ownsCtx, postCtor]) | fail "clause alive"
+  case refsLen => first | exact ($h).refsLen | (have := ($h).refsLen; grind [upd, pcOK, preClaim, preResolve, isCtor, inflight, ownsCtx, postCtor]) | (inv_facts $h; grind [upd, pcOK, preClaim, preResolve, isCtor, inflight, ownsCtx, postCtor]) | fail "clause refsLen"
+  case hThread => first | exact ($h).hThread | (have := ($h).hThread; grind [upd, pcOK, preClaim, preResolve, isCtor, inflight, ownsCtx, postCtor]) | (inv_facts $h; grind [upd, pcOK, preClaim, preResolve, isCtor, inflight, ownsCtx, postCtor]) | fail "clause hThread"
+  case hCtx => first | exact ($h).hCtx | (have := ($h).hCtx; grind [upd, pcOK, preClaim, preResolve, isCtor, inflight, ownsCtx, postCtor]) | (inv_facts $h; grind [upd, pcOK, preClaim, preResolve, isCtor, inflight, ownsCtx, postCtor]) | fail "clause hCtx"
+  case hTracer => first | exact ($h).hTracer | (have := ($h).hTracer; grind [upd, pcOK, preClaim, preResolve, isCtor, inflight, ownsCtx, postCtor]) | (inv_facts $h; grind [upd, pcOK, preClaim, preResolve, isCtor, inflight, ownsCtx, postCtor]) | fail "clause hTracer"
+  case freedIff => first | exact ($h).freedIff | (have := ($h).freedIff; grind [upd, pcOK, preClaim, preResolve, isCtor, inflight, ownsCtx, postCtor]) | (inv_facts $h; grind [upd, pcOK, preClaim, preResolve, isCtor, inflight, ownsCtx, postCtor]) | fail "clause freedIff"
+  case noUaf => first | exact ($h).noUaf | (have := ($h).noUaf; grind [upd, pcOK, preClaim, preResolve, isCtor, inflight, ownsCtx, postCtor]) | (inv_facts $h; grind [upd, pcOK, preClaim, preResolve, isCtor, inflight, ownsCtx, postCtor]) | fail "clause noUaf"
+  case noCrash => first | exact ($h).noCrash | (have := ($h).noCrash; grind [upd, pcOK, preClaim, preResolve, isCtor, inflight, ownsCtx, postCtor]) | (inv_facts $h; grind [upd, pcOK, preClaim, preResolve, isCtor, inflight, ownsCtx, postCtor]) | fail "clause noCrash"
+  case tracerCnt => first | exact ($h).tracerCnt | (have := ($h).tracerCnt; grind [upd, pcOK, preClaim, preResolve, isCtor, inflight, ownsCtx, postCtor]) | (inv_facts $h; grind [upd, pcOK, preClaim, preResolve, isCtor, inflight, ownsCtx, postCtor]) | fail "clause tracerCnt"
+  case tracerLast => first | exact ($h).tracerLast | (have := ($h).tracerLast; grind [upd, pcOK, preClaim, preResolve, isCtor, inflight, ownsCtx, postCtor]) | (inv_facts $h; grind [upd, pcOK, preClaim, preResolve, isCtor, inflight, ownsCtx, postCtor]) | fail "clause tracerLast"
+  case wake => first | exact ($h).wake | (have := ($h).wake; grind [upd, pcOK, preClaim, preResolve, isCtor, inflight, ownsCtx, postCtor]) | (inv_facts $h; grind [upd, pcOK, preClaim, preResolve, isCtor, inflight, ownsCtx, postCtor]) | fail "clause wake"
+  case obsv => first | exact ($h).obsv | (have := ($h).obsv; grind [upd, pcOK, preClaim, preResolve, isCtor, inflight, ownsCtx, postCtor]) | (inv_facts $h; grind [upd, pcOK, preClaim, preResolve, isCtor, inflight, ownsCtx, postCtor]) | fail "clause obsv"
+  case subAw => first | exact ($h).subAw | (have := ($h).subAw; grind [upd, pcOK, preClaim, preResolve, isCtor, inflight, ownsCtx, postCtor]) | (inv_facts $h; grind [upd, pcOK, preClaim, preResolve, isCtor, inflight, ownsCtx, postCtor]) | fail "clause subAw"
+  case awKind => first | exact ($h).awKind | (have := ($h).awKind; grind [upd, pcOK, preClaim, preResolve, isCtor, inflight, ownsCtx, postCtor]) | (inv_facts $h; grind [upd, pcOK, preClaim, preResolve, isCtor, inflight, ownsCtx, postCtor]) | fail "clause awKind"
+  case ctxIff => first | exact ($h).ctxIff | (have := ($h).ctxIff; grind [upd, pcOK, preClaim, preResolve, isCtor, inflight, ownsCtx, postCtor]) | (inv_facts $h; grind [upd, pcOK, preClaim, preResolve, isCtor, inflight, ownsCtx, postCtor]) | fail "clause ctxIff"
+  case wakeKind => first | exact ($h).wakeKind | (have := ($h).wakeKind; grind [upd, pcOK, preClaim, preResolve, isCtor, inflight, ownsCtx, postCtor]) | (inv_facts $h; grind [upd, pcOK, preClaim, preResolve, isCtor, inflight, ownsCtx, postCtor]) | fail "clause wakeKind"
+  case storeKind => first | exact ($h).storeKind | (have := ($h).storeKind; grind [upd, pcOK, preClaim, preResolve, isCtor, inflight, ownsCtx, postCtor]) | (inv_facts $h; grind [upd, pcOK, preClaim, preResolve, isCtor, inflight, ownsCtx, postCtor]) | fail "clause storeKind"
+  case flagIff => first | exact ($h).flagIff | (have := ($h).flagIff; grind [upd, pcOK, preClaim, preResolve, isCtor, inflight, ownsCtx, postCtor]) | (inv_facts $h; grind [upd, pcOK, preClaim, preResolve, isCtor, inflight, ownsCtx, postCtor]) | fail "clause flagIff"
+  case wokenReady => first | exact ($h).wokenReady | (have := ($h).wokenReady; grind [upd, pcOK, preClaim, preResolve, isCtor, inflight, ownsCtx, postCtor]) | (inv_facts $h; grind [upd, pcOK, preClaim, preResolve, isCtor, inflight, ownsCtx, postCtor]) | fail "clause wokenReady"
+  case resHeld => first | exact ($h).resHeld | (have := ($h).resHeld; grind [upd, pcOK, preClaim, preResolve, isCtor, inflight, ownsCtx, postCtor]) | (inv_facts $h; grind [upd, pcOK, preClaim, preResolve, isCtor, inflight, ownsCtx, postCtor]) | fail "clause resHeld"
+  case aProg => first | exact ($h).aProg | (have := ($h).aProg; grind [upd, pcOK, preClaim, preResolve, isCtor, inflight, ownsCtx, postCtor]) | (inv_facts $h; grind [upd, pcOK, preClaim, preResolve, isCtor, inflight, ownsCtx, postCtor]) | fail "clause aProg"))
 
 variable {c : Cfg} {s : State} {t : Nat}
 
@@ -266,6 +279,36 @@ theorem dropRef_fst (x : Holder) (hf : s.freed = 0) :
   · rename_i h1; simp [touch_eq hf, h1, hf]
   · simp [touch_eq hf, hf]
 
+theorem cntS_le_cntW (x : Nat) (l : List WAct) : cntS x l ≤ cntW x l := by
+  induction l with
+  | nil => simp [cntS, cntW]
+  | cons a l ih => cases a <;> simp [cntS, cntW] <;> omega
+
+/-- a thread that has not awaited yet left no trace in the awaiter bookkeeping -/
+theorem not_awaited_clean (h : Inv c s) (ha : s.awaited t = false) :
+    s.observed t = 0 ∧ cntO t (wacts c s) = 0 ∧ cntW t (wacts c s) = 0 ∧ cntS t (wacts c s) = 0 ∧
+    (chainOf s.slot).count (Node.aw t) = 0 ∧ s.woken t = 0 ∧ s.subscribed t = false ∧ s.ctx t = false ∧ s.flag t = false ∧
+    inflight (s.pc t) = 0 := by
+  have h1 := h.obsv t
+  have h2 := h.wake t
+  have h3 := h.subAw t
+  have h4 := (h.ctxIff t).1
+  have h5 := (h.flagIff t).1
+  have h6 := cntS_le_cntW t (wacts c s)
+  have hsub : s.subscribed t = false := by
+    cases hq : s.subscribed t
+    · rfl
+    · have := h3 hq; simp [ha] at this
+  simp only [ha, hsub] at h1 h2
+  simp at h1 h2
+  refine ⟨by omega, by omega, by omega, by omega, by omega, by omega, hsub, ?_, ?_, by omega⟩
+  · cases hq : s.ctx t
+    · rfl
+    · have := (h4 hq).1; simp [ha] at this
+  · cases hq : s.flag t
+    · rfl
+    · have := (h5 hq).2; omega
+
 theorem kindOf_zero (c : Cfg) : kindOf c 0 = Kind.creator := by simp [kindOf]
 
 theorem kind_creator_iff (c : Cfg) (t : Nat) : kindOf c t = Kind.creator ↔ t = 0 := by
@@ -305,7 +348,7 @@ theorem inv_init (c : Cfg) (h : Fixed c) (hn : 0 < c.n) : Inv c (init c) := by
   constructor
   all_goals (try simp only [hw, hp])
   all_goals (try (simp [init, cntW, cntO, cntS, cntRel, inflight, chainOf, ownsCtx]; done))
-  all_goals (try (simp only [init]; grind [pcOK, preClaim, preResolve, isCtor, finalPayload, chainOf, Mode.hasPromise, Mode.initPayload, cntRel]; done))
+  all_goals (try (simp only [init]; grind [pcOK, preClaim, preResolve, isCtor, postCtor, finalPayload, chainOf, Mode.hasPromise, Mode.initPayload, cntRel]; done))
   case pcok =>
     intro t
     rcases hc t with h1 | h1 | h1 | h1
@@ -315,16 +358,17 @@ theorem inv_init (c : Cfg) (h : Fixed c) (hn : 0 < c.n) : Inv c (init c) := by
     · rw [h1.1]; exact h1.2
   case aCtor =>
     intro t is hq
-    rcases hc t with h1 | h1 | h1 | h1 <;> rw [h1.1] at hq <;> try (exact absurd hq (by simp))
-    injection hq with hq
-    subst hq
-    have h2 := h1.2.1
-    subst h2
-    simp only [init]
-    refine ⟨by simp, rfl, by omega, fun _ => rfl, fun _ _ => hs, ?_⟩
-    unfold Cfg.script
-    cases hm : c.mode <;> simp [Mode.hasPromise]
-    split <;> simp
+    rcases hc t with h1 | h1 | h1 | h1
+    · rw [h1.1] at hq; cases hq
+    · rw [h1.1] at hq
+      cases hq
+      have h2 := h1.2.1
+      subst h2
+      refine ⟨by simp [init], rfl, by omega, fun _ => rfl, fun _ _ => hs, ?_⟩
+      unfold Cfg.script
+      cases hm : c.mode <;> simp [Mode.hasPromise]
+    · rw [h1.1] at hq; cases hq
+    · rw [h1.1] at hq; cases hq
   case wake =>
     intro x
     have hch : chainOf (init c).slot = [] := by simp only [init]; split <;> rfl
